@@ -80,7 +80,7 @@ def field_cases(run, rng, quick):
     from whoosh.filedb.filestore import RamStorage
     cases, metas, flags = [], [], []
     for name, mk, pool, outside in field_configs():
-        steps = [0, 4] if quick else [0, 1, 2, 3, 4, 5, 6, 7, 8]
+        steps = [0, 4, 3, 7] if quick else [0, 1, 2, 3, 4, 5, 6, 7, 8]
         if name == "datetime":
             steps = [4]
         for step in steps:
